@@ -36,6 +36,32 @@ CHECKS = {
  "C13": ("exploration", "bounded exhaustive enumeration of (source type, target type, value) vs exact conversion model",
    "All 289 pairs of 17 types (those for which CAST binds) x alphabets with conversion edge values, literal and column context; decimal rescale at every scale distance; text round trips incl. full-domain sweeps of the 8/16-bit types.",
    "Rounding rules as stated in the property (float->int truncates, decimals half away from zero); float->decimal accepts either neighbour."),
+ "C10": ("exploration", "bounded exhaustive enumeration of valid Parquet files (written by an independent writer) vs the values written",
+   "Files produced by pqgen, a Parquet writer in the harness written from the format specification (own Thrift compact encoder; PLAIN / RLE_DICTIONARY / RLE / DELTA_BINARY_PACKED / DELTA_LENGTH_BYTE_ARRAY / DELTA_BYTE_ARRAY / BYTE_STREAM_SPLIT; data page v1 and v2; uncompressed / snappy / gzip / zstd): every physical x logical type x every legal encoding x page version x codec x NULL mask family x page-size family x row-group layout x batch size; dictionaries above 256 / 65 536 entries, RLE runs and bit-packed groups crossing read boundaries; the rows read back (values, NULL positions, order, column types) and parquet_file_metadata / rowgroup / column metadata must equal what was written.",
+   "pqgen is trusted as the specification's reading (a writer bug shows up as a disagreement and is triaged against the specification); nested / repeated columns are outside the alphabet."),
+ "C14": ("model_checking", "explicit-state breadth-first search over statement histories on the real engine with a catalog reference model",
+   "BFS over all histories of DDL/DML/SET statements (13 quick / 26 thorough statement forms incl. IF [NOT] EXISTS, OR REPLACE, CTAS [IF NOT EXISTS], INSERT..SELECT from the target, statements failing at bind and at run time) issued by two sessions of one engine, to depth 4 (quick) / 5 (thorough); states are canonical observations (schemas, tables, views, DESCRIBE, sorted contents, SHOW) of both sessions and are deduplicated by hash; every transition re-executes the history on fresh sessions of the implementation and compares outcome class, reported row count, the acting session's observation with the model and the other session's observation with its previous one.",
+   "Canonical form drops only what the property cannot observe (row order); the merge soundness is cross-checked by re-running depth 2 without merging. Interleavings of parallel appends are C04's shapes insert-select / ctas / tables-self-insert."),
+ "C15": ("exploration", "bounded exhaustive enumeration of statement texts (token sequences, single-token mutations, nesting depths, ill-typed calls)",
+   "All token sequences of length <= 4 (quick) / 5 (thorough) over a 28-token alphabet; 55 corpus statements under every single-token deletion / duplication / swap / replacement; 14 nesting families (parentheses, unary chains, CASE, subqueries, CTE chains, joins, IN lists, ...) at depths 2^0..2^13; every scalar and aggregate signature on ill-typed and extreme arguments; statements that fail at run time; after every statement the same session must still answer a probe query and a failed statement must leave the catalog unchanged. Outcome must be rows or error - a panic, hang, abort (stack overflow) or a poisoned session is a violation.",
+   "Process-killing statements are isolated by the guard supervisor (child process + watchdog) and attributed by in-flight slots; the depth families are keyed by family, not by the exact depth where the stack ends."),
+ "C17": ("exploration", "bounded exhaustive enumeration of CSV files x read-chunk splits x batch sizes x partitions vs an RFC-4180 reference parser",
+   "All grids of <=3x2 (quick) / <=4x3 (thorough) cells with every choice of <=2 special cells out of 13 (empty, numeric, boolean, multi-byte, padded, quoted with delimiter / doubled quote / LF / CRLF, quoted empty) and typed columns, rendered in 3 (quick) / 6 dialects x header yes/no x LF/CRLF x final newline yes/no; the rows must be explained by the harness's RFC-4180 parser under one admissible (dialect, header) decision with narrowest column types, and must be identical for every single split point of the byte stream into two reads (and all pairs of split points for small files), read sizes 1..7, batch sizes 1/2/3 and 1..3 partitions; size families crossing the 4 096-byte inference sample.",
+   "Dialect / header inference is under-specified: any admissible candidate is accepted, but the same file must give the same rows under every split / batch / partition choice."),
+ "C18": ("exploration", "bounded exhaustive enumeration of statements with a four-way schema agreement oracle",
+   "For the C01 term space, every scalar signature (literal and column context), every unary aggregate (plain / grouped), UNION / CASE / coalesce over all ordered pairs of 18 types, decimal arithmetic over (p,s) x (p,s), catalog statements: DESCRIBE <stmt>, the announced output schema, the datatype of every returned batch and the variant of every value (incl. decimal precision / scale, timestamp unit) must agree pairwise.",
+   "Agreement oracle only (which of the disagreeing sides is right is not decided)."),
+ "C19": ("exploration", "bounded exhaustive fault enumeration (every truncation, byte substitution, metadata lie and I/O error position) on small valid files",
+   "26 valid pqgen files (one per type x encoding x page version x codec class) and 8 CSV files: every truncation length, every single-byte substitution by up to six values, every integer field of footer and page headers replaced by seven lies (0, 1, -1, value+-1, 2^31-1, 2^63-1), an injected I/O error / short read / pending at every read call; the statement must return rows or an error - no panic, abort, hang (> 3 s inside one poll) or allocation blow-up.",
+   "After the first blow-up of a fault group (same file region and substitution) the remaining faults of the group are not fed (reported in the evidence); known reader panics are listed by panic site and region."),
+ "C20": ("exploration", "bounded exhaustive enumeration of (string function call, subject) and (pattern, subject) pairs vs character-level reference implementations",
+   "219 string-function calls x 262 subjects (all strings of length <= 2 over a 9-symbol alphabet with multi-byte, combining and 4-byte characters, plus long / padded subjects) against character-level reference implementations in the harness; all LIKE patterns of length <= 3 (quick) / 4 (thorough) over {a, B, %, _, escape, newline, multi-byte} x all subjects against a reference matcher, evaluated as constant pattern (optimizer rewrite on and off) and as column pattern; regular-expression functions against Python's re on the common syntax subset.",
+   "Python re is the regex oracle only for patterns inside the syntax subset both engines define identically; outside it only safety (no panic / hang) is asserted."),
+}
+
+NA = {
+ "C11": "No check is committed for scan pushdown / statistics pruning / multi-file globbing in this snapshot: the explorer (pqgen files with exact / lying / missing statistics x predicates x projections x glob layouts over VerifFs, differential against the unpruned scan) is designed in DESIGN.md but not built; nothing is claimed for it.",
+ "C16": "Memory safety of unsafe buffer code is not a property a bounded exhaustive exploration decides on its own: it needs a monitor (Miri / ASan) under the explorer. All checks run with debug assertions and overflow checks on, which catches index and arithmetic violations as panics, but no Miri / sanitizer run is wired into a registered command in this snapshot, so the property is not claimed.",
 }
 
 def main():
@@ -66,7 +92,7 @@ def main():
         },
         "engines": [{"name": "vharness", "path": "/verif/harness", "serves_properties": sorted(CHECKS), "kind_free_text": "Rust harness that implements GlareDB's PipelineRuntime (it is the scheduler) and FileSystem (it is the OS); bounded exhaustive enumeration of programs x databases x configurations x schedules x faults against a reference model, run in a supervised child process (hang / abort isolation)"}],
         "checks": checks,
-        "not_applicable": [{"property_id": i, "reason": "explorer for this property is not committed yet in this snapshot (planned in DESIGN.md); it will be claimed once its check exists"} for i in ids if i not in CHECKS],
+        "not_applicable": [{"property_id": i, "reason": NA.get(i, "explorer for this property is not built in this snapshot; see DESIGN.md")} for i in ids if i not in CHECKS],
         "notes": "fix: commits in /repo: " + "; ".join(c for c in commits if "fix:" in c),
     }
     json.dump(m, open("/verif/MANIFEST.json", "w"), indent=1)
